@@ -19,7 +19,7 @@ def targets(world, pats):
     for key, c in world.contracts.items():
         if key.startswith("ext:") or c.trusted:
             continue
-        if pats and not any(p in key for p in pats):
+        if pats and not any((key == p[:-1]) if p.endswith('$') else (p in key) for p in pats):
             continue
         fkey = key
         fi = world.prog.functions.get(fkey)
@@ -30,7 +30,73 @@ def targets(world, pats):
     return out
 
 
+class _Ob:
+    def __init__(self, d, parent=None):
+        self.name, self.kind, self.where = d["name"], (parent or d)["kind"], (parent or d)["where"]
+        self.trivial = d.get("trivial", False)
+        self._s = d["smt2"]
+        self.parts = [_Ob(p, d) for p in d.get("parts", [])] or None
+
+    def smt2(self):
+        return self._s
+
+
+def main_par(argv):
+    """parallel generation exactly as check.py does it:  python -m pyvc.run --par <pattern>  (PYVC_ONLY=<regex>)"""
+    import multiprocessing as mp
+    import re
+    from . import pargen
+    src = os.environ.get("CMINX_SRC", "/repo/src")
+    here = os.path.dirname(os.path.dirname(os.path.abspath(__file__)))
+    load = lambda: World(src, os.path.join(here, "contracts"))
+    world = load()
+    pats = [a for a in argv if not a.startswith("-")]
+    tg = [(fi.key, r) for fi, r in targets(world, pats)]
+    t0 = time.time()
+    gens = pargen.generate(load, tg)
+    obs, covers = [], []
+    for g in gens:
+        if not g["ok"]:
+            print(f"ERROR {g['label']}: {g['error']}")
+            continue
+        print(f"{g['label']}: paths={g['paths']} obligations={len(g['obligations'])} cpu={g['gen_s']:.0f}s")
+        obs.extend(_Ob(o) for o in g["obligations"])
+        covers.extend(g["covers"])
+    print(f"generation wall={time.time()-t0:.1f}s")
+    if os.environ.get("PYVC_GEN_ONLY"):
+        return
+    only = os.environ.get("PYVC_ONLY")
+    if only:
+        obs = [o for o in obs if re.search(only, o.name)]
+        print(f"restricted to {len(obs)} obligations matching {only!r}")
+    else:
+        tc = time.time()
+        bad = solve.run_cover_tasks(covers)
+        print(f"covers wall={time.time()-tc:.1f}s")
+        for nme in bad:
+            print("  VACUOUS path condition:", nme)
+        print(f"covers={len(covers)} vacuous={len(bad)}")
+    td = time.time()
+    res = solve.discharge(obs, timeout_ms=int(os.environ.get("PYVC_TIMEOUT_MS", "20000")))
+    print(f"discharge wall={time.time()-td:.1f}s")
+    nbad = 0
+    for o in sorted(obs, key=lambda o: o.name):
+        v = res[o.name]
+        if v[0] != "unsat" or "-v" in argv:
+            print(f"  {v[0]:8s} {v[2]:6d}ms {v[1]:12s} {o.name}   {o.where}  {v[4] if len(v) > 4 else ''}")
+            if v[0] != "unsat":
+                nbad += 1
+                d = os.environ.get("PYVC_DUMP")
+                if d:
+                    os.makedirs(d, exist_ok=True)
+                    with open(os.path.join(d, o.name.replace("/", "_").replace(":", "_") + ".smt2"), "w") as f:
+                        f.write(o.smt2())
+    print(f"obligations={len(obs)} discharged={len(obs)-nbad} not={nbad}")
+
+
 def main(argv):
+    if "--par" in argv:
+        return main_par([a for a in argv if a != "--par"])
     src = os.environ.get("CMINX_SRC", "/repo/src")
     here = os.path.dirname(os.path.dirname(os.path.abspath(__file__)))
     world = World(src, os.path.join(here, "contracts"))
@@ -50,6 +116,8 @@ def main(argv):
         print(f"{fv.label}: paths={fv.paths} obligations={len(obs)} gen={time.time()-t0:.1f}s")
         allobs.extend(obs)
         allcov.extend(fv.covers)
+    if os.environ.get("PYVC_GEN_ONLY"):
+        return
     vac = solve.check_covers(allcov)
     for n in vac:
         print("  VACUOUS path condition:", n)
